@@ -7,6 +7,7 @@ import gen_colors
 import gen_tables
 import gen_outconv
 import gen_guards
+import gen_threads
 
 REPO = os.environ.get("VERIF_REPO", "/repo")
 GEN = "/verif/coq/Gen"
@@ -27,6 +28,9 @@ def main():
     status.update(st)
     text, st = gen_outconv.generate(REPO)
     gen_scalar.write_if_changed(os.path.join(GEN, "OutConv_gen.v"), text)
+    status.update(st)
+    text, st = gen_threads.generate(REPO)
+    gen_scalar.write_if_changed(os.path.join(GEN, "Threads_gen.v"), text)
     status.update(st)
     text, st = gen_guards.generate(REPO)
     gen_scalar.write_if_changed(os.path.join(GEN, "Guards_gen.v"), text)
